@@ -3,6 +3,7 @@ package sched
 import (
 	"encoding/json"
 	"fmt"
+	"os"
 
 	"verif/mc"
 )
@@ -75,7 +76,7 @@ func exploreCase(c *mc.Ctx, w *mc.W, cas c20Case, maxExecs int) {
 	distinct := map[string]bool{}
 	reported := map[string]bool{}
 	ex := &Explorer{Bound: cas.Bound, MaxExecs: maxExecs}
-	ex.StopOnProblem = cas.Kind == "gcs" && cas.GCS != nil && cas.GCS.Big
+	ex.StopOnProblem = cas.Kind == "gcs" && cas.GCS != nil && cas.GCS.Big || cas.Kind == "bloom" && cas.Bloom != nil && cas.Bloom.Geom == "big"
 	ex.Run = func(choose func(int, []int, bool) int) *Outcome { return runCase(cas, choose) }
 	ex.OnOutcome = func(o *Outcome) {
 		w.Eval()
@@ -107,6 +108,9 @@ func exploreCase(c *mc.Ctx, w *mc.W, cas c20Case, maxExecs int) {
 	if ex.Capped {
 		c.NotExhaustive(fmt.Sprintf("execution cap %d reached for a configuration", maxExecs))
 	}
+	if os.Getenv("VERIF_DEBUG_C20") != "" {
+		fmt.Fprintf(os.Stderr, "debug: %v %v execs=%d points=%d contended=%d capped=%v\n", cas.Bloom, cas.GCS, ex.Execs, ex.Points, ex.Contended, ex.Capped)
+	}
 	w.OutcomeN("executions", int64(ex.Execs))
 	w.OutcomeN("scheduling points with >= 2 enabled threads", ex.Contended)
 	w.OutcomeN(fmt.Sprintf("configurations with %d distinct observable outcomes", min(len(distinct), 5)), 1)
@@ -123,8 +127,12 @@ func RunC20(c *mc.Ctx) {
 	c.Assume("statement-granular interleaving: a statement's shared accesses are announced together before it executes")
 	c.Note("preemption_bound_pairs", bound2)
 
+	onlyBig := os.Getenv("VERIF_DEBUG_C20") == "big"
 	// ---- bloom: all unordered pairs of programs
 	progs := programs(BloomOps, 2)
+	if onlyBig {
+		progs = nil
+	}
 	type pair struct{ a, b int }
 	var pairs []pair
 	for i := range progs {
@@ -177,6 +185,22 @@ func RunC20(c *mc.Ctx) {
 		exploreCase(c, w, c20Case{Kind: "bloom", Bloom: cfg, Bound: 2}, 200000)
 	})
 	c.Sample("schedule", c20Case{Kind: "bloom", Bloom: &BloomConfig{Geom: "1x2", Progs: [][]string{{"Add:x", "Matches:x"}, {"Unload"}}}, Choices: []int{0, 1, 0}, Bound: bound2})
+
+	// ---- bloom: a transaction with more than a thousand outputs (MatchTxAndUpdate must stay one atomic
+	// step however long it runs) against every other operation, on a 4096-byte filter that the
+	// insertions do not saturate
+	{
+		var bigs []*BloomConfig
+		for _, other := range [][]string{{"Reload"}, {"Unload"}, {"Add:y"}, {"AddOutPoint"}, {"Matches:x"}, {"MatchesOutPoint"}, {"Msg"}, {"IsLoaded"}, {"Reload", "Matches:x"}, {"Unload", "Reload"}} {
+			for _, mine := range [][]string{{"Add:x", "MatchTxBig"}, {"MatchTxBig"}} {
+				bigs = append(bigs, &BloomConfig{Geom: "big", Progs: [][]string{mine, other}})
+			}
+		}
+		c.Space("bloom: a 1030-output transaction against every other operation (4096-byte filter)", int64(len(bigs)))
+		c.ParFor(int64(len(bigs)), func(w *mc.W, i int64) {
+			exploreCase(c, w, c20Case{Kind: "bloom", Bloom: bigs[i], Bound: 2}, 20000)
+		})
+	}
 
 	// ---- gcs
 	gp := programs(GCSOps, 1)
